@@ -86,13 +86,15 @@ class OpAdd(Op):
         if parent is None:
             # Replace the root object.
             # The following op, if any, will raise a JSONPatchError if needed.
-            return self.value  # type: ignore
+            return copy.deepcopy(self.value)  # type: ignore
 
         target = self.path.parts[-1]
         if isinstance(parent, MutableSequence):
-            parent.insert(_array_index(target, parent, insert=True), self.value)
+            parent.insert(
+                _array_index(target, parent, insert=True), copy.deepcopy(self.value)
+            )
         elif isinstance(parent, MutableMapping):
-            parent[str(target)] = self.value
+            parent[str(target)] = copy.deepcopy(self.value)
         else:
             raise JSONPatchError(
                 f"unexpected operation on {parent.__class__.__name__!r}"
@@ -125,16 +127,19 @@ class OpAddNe(OpAdd):
         if parent is None:
             # Replace the root object.
             # The following op, if any, will raise a JSONPatchError if needed.
-            return self.value  # type: ignore
+            return copy.deepcopy(self.value)  # type: ignore
 
         target = self.path.parts[-1]
         if isinstance(parent, MutableSequence):
             if obj is UNDEFINED:
-                parent.append(self.value)
+                parent.append(copy.deepcopy(self.value))
             else:
-                parent.insert(_array_index(target, parent, insert=True), self.value)
+                parent.insert(
+                    _array_index(target, parent, insert=True),
+                    copy.deepcopy(self.value),
+                )
         elif isinstance(parent, MutableMapping) and str(target) not in parent:
-            parent[str(target)] = self.value
+            parent[str(target)] = copy.deepcopy(self.value)
         return data
 
 
@@ -159,16 +164,19 @@ class OpAddAp(OpAdd):
         if parent is None:
             # Replace the root object.
             # The following op, if any, will raise a JSONPatchError if needed.
-            return self.value  # type: ignore
+            return copy.deepcopy(self.value)  # type: ignore
 
         target = self.path.parts[-1]
         if isinstance(parent, MutableSequence):
             if obj is UNDEFINED:
-                parent.append(self.value)
+                parent.append(copy.deepcopy(self.value))
             else:
-                parent.insert(_array_index(target, parent, insert=True), self.value)
+                parent.insert(
+                    _array_index(target, parent, insert=True),
+                    copy.deepcopy(self.value),
+                )
         elif isinstance(parent, MutableMapping):
-            parent[str(target)] = self.value
+            parent[str(target)] = copy.deepcopy(self.value)
         else:
             raise JSONPatchError(
                 f"unexpected operation on {parent.__class__.__name__!r}"
@@ -232,18 +240,20 @@ class OpReplace(Op):
         """Apply this patch operation to _data_."""
         parent, obj = self.path.resolve_parent(data)
         if parent is None:
-            return self.value  # type: ignore
+            return copy.deepcopy(self.value)  # type: ignore
 
         if isinstance(parent, MutableSequence):
             if obj is UNDEFINED:
                 raise JSONPatchError("can't replace nonexistent item")
-            parent[_array_index(self.path.parts[-1], parent)] = self.value
+            parent[_array_index(self.path.parts[-1], parent)] = copy.deepcopy(
+                self.value
+            )
         elif isinstance(parent, MutableMapping):
             # Object member names are strings, even if they look like an index.
             key = str(self.path.parts[-1])
             if obj is UNDEFINED or key not in parent:
                 raise JSONPatchError("can't replace nonexistent property")
-            parent[key] = self.value
+            parent[key] = copy.deepcopy(self.value)
         else:
             raise JSONPatchError(
                 f"unexpected operation on {parent.__class__.__name__!r}"
